@@ -107,7 +107,7 @@ static void do_find(const jv *v)
       } }
     memset(&other, 0, sizeof(other)); other.type = cJSON_NULL;
     got = cJSONUtils_FindPointerFromObjectTo(doc, &other); if (got) { viol("C15", "FindPointerFromObjectTo found a node that is not in the tree"); cJSON_free(got); }
-    if (al_live != live) viol("C15", "pointer construction leaks");
+    if (al_live != live) viol("C07 C15", "pointer construction leaks");
     by[1]++;
 }
 /* signature of the known finding: an operation copy or move whose path is the empty pointer */
@@ -145,7 +145,7 @@ static void do_apply(const jv *v)
     if (al_bad_free) viol("C16", "invalid release while patching");
     if (!al_check_redzones()) viol("C16", "patching wrote beyond an allocated block");
     cJSON_Delete(doc); cJSON_Delete(patch);
-    if (al_live != 0) viol("C16", "%ld block(s) leaked by patch application (status %d)", al_live, st);
+    if (al_live != 0) viol("C07 C16", "%ld block(s) leaked by patch application (status %d)", al_live, st);
     by[2]++; by[3 + (cls[0] == 'S' ? 0 : cls[0] == 'F' ? 1 : 2)]++;
 }
 static void do_merge(const jv *v)
@@ -160,8 +160,15 @@ static void do_merge(const jv *v)
     (void)hp;
     if (!sem_equal(jv_at(v, 2), patch)) viol("C18", "the merge patch changed its value");
     cJSON_Delete(res); cJSON_Delete(patch);
-    if (al_live != 0 || al_bad_free) viol("C18", "%ld block(s) leaked / %ld invalid releases by merge patch application", al_live, al_bad_free);
+    if (al_live != 0 || al_bad_free) viol("C07 C18", "%ld block(s) leaked / %ld invalid releases by merge patch application", al_live, al_bad_free);
     by[6]++;
+}
+static void flag_all(cJSON *t, int on)
+{
+    cJSON *c;
+    if (on) { if (t->string) t->type |= cJSON_StringIsConst; if ((t->type & 0xFF) == cJSON_String) t->type |= cJSON_IsReference; }
+    else t->type &= 0xFF;
+    for (c = t->child; c; c = c->next) flag_all(c, on);
 }
 static void do_pair(const jv *v)
 {
@@ -194,8 +201,95 @@ static void do_pair(const jv *v)
         cJSON_Delete(mp);
     }
     cJSON_Delete(from); cJSON_Delete(to);
-    if (al_live != 0 || al_bad_free) viol("C17 C18", "%ld block(s) leaked / %ld invalid releases by patch generation", al_live, al_bad_free);
+    if (al_live != 0 || al_bad_free) viol("C07 C17 C18", "%ld block(s) leaked / %ld invalid releases by patch generation", al_live, al_bad_free);
+    /* the same documents as the construction API builds them with constant keys and string references: ownership flags
+     * on the nodes change nothing */
+    {
+        cJSON *mp, *res, *copy2;
+        from = vb_build(jf); to = vb_build(jt);
+        flag_all(from, 1); flag_all(to, 1);
+        p = cJSONUtils_GeneratePatchesCaseSensitive(from, to);
+        if (!p || (p->child == NULL) != (eq != 0)) viol("C17", "with constant keys / string references in the documents the generated patch is %s although the documents are %s", (p && p->child) ? "not empty" : "empty", eq ? "equal" : "different");
+        else { copy2 = cJSON_Duplicate(from, 1); st = cJSONUtils_ApplyPatchesCaseSensitive(copy2, p);
+               if (st != 0 || !sem_equal(jt, copy2)) viol("C17", "documents with constant keys / string references: applying the generated patch to 'from' does not give 'to'");
+               cJSON_Delete(copy2); }
+        cJSON_Delete(p);
+        if (!tonull) {
+            mp = cJSONUtils_GenerateMergePatchCaseSensitive(from, to);
+            copy2 = cJSON_Duplicate(from, 1); res = mp ? cJSONUtils_MergePatchCaseSensitive(copy2, mp) : copy2;
+            if (!res || !sem_equal(jt, res)) { char *s = mp ? cJSON_PrintUnformatted(mp) : NULL; viol("C18", "documents with constant keys / string references: applying the generated merge patch (%s) to 'from' does not give 'to'", s ? s : "NULL = no change"); cJSON_free(s); }
+            cJSON_Delete(res); cJSON_Delete(mp);
+        }
+        flag_all(from, 0); flag_all(to, 0);
+        cJSON_Delete(from); cJSON_Delete(to);
+        if (al_live != 0 || al_bad_free) viol("C07 C17 C18", "%ld block(s) leaked / %ld invalid releases by patch generation on documents with ownership flags", al_live, al_bad_free);
+    }
     by[7]++;
+}
+
+/* ["D", tree]: a recursive duplicate denotes the same value, is well-formed, shares no block with the source (C11) */
+static long claim_tree(const cJSON *t)          /* tags every block the tree owns; returns the number of blocks that are not live or already claimed */
+{
+    long bad = 0; const cJSON *c; blk *b;
+    b = al_find(t); if (!b || b->state != 1 || b->tag) bad++; else b->tag = 1;
+    if (t->string && !(t->type & cJSON_StringIsConst)) { b = al_find(t->string); if (!b || b->state != 1 || b->tag) bad++; else b->tag = 1; }
+    if (t->valuestring && !(t->type & cJSON_IsReference)) { b = al_find(t->valuestring); if (!b || b->state != 1 || b->tag) bad++; else b->tag = 1; }
+    if (!(t->type & cJSON_IsReference)) for (c = t->child; c; c = c->next) bad += claim_tree(c);
+    return bad;
+}
+static int obj_depth(const cJSON *t) { const cJSON *c; int d = 0, x; for (c = t->child; c; c = c->next) { x = obj_depth(c); if (x > d) d = x; } return d + (((t->type & 0xFF) == cJSON_Object) ? 1 : 0); }
+static void do_dup(const jv *v)
+{
+    cJSON *src = vb_build(jv_at(v, 1)), *copy, *shallow; char why[300] = ""; uint64_t h = vb_hash(src, 0); blk *b; long bad;
+    al_window(0); copy = cJSON_Duplicate(src, 1);
+    if (!copy) { viol("C11", "cJSON_Duplicate returned NULL for a tree within the nesting limit"); cJSON_Delete(src); return; }
+    if (!vb_equal(jv_at(v, 1), copy, why, sizeof(why), 0)) viol("C11", "the duplicate differs from the source: %s", why);
+    else if (!vb_wellformed(copy, why, sizeof(why), 0)) viol("C11", "the duplicate is not well-formed: %s", why);
+    if (copy->next || copy->prev) viol("C11", "the duplicate has sibling links");
+    /* cJSON_Compare looks every member up in both directions and recurses both times, i.e. 2^depth work on nested objects:
+     * it is only consulted where that terminates in reasonable time (the structural comparison above is complete anyway) */
+    if (obj_depth(src) <= 16 && !cJSON_Compare(src, copy, 1)) viol("C11", "the duplicate does not compare equal to the source");
+    if (vb_hash(src, 0) != h) viol("C11", "duplication modified the source");
+    for (b = al_all; b; b = b->nextall) b->tag = 0;
+    bad = claim_tree(src) + claim_tree(copy);
+    if (bad) viol("C11", "source and duplicate share %ld block(s) (or own released memory)", bad);
+    for (b = al_all; b; b = b->nextall) if (b->state == 1 && !b->tag) { viol("C11 C07", "duplication left a block of %zu bytes that belongs to neither tree", b->size); break; }
+    shallow = cJSON_Duplicate(src, 0);
+    if (!shallow || shallow->child || shallow->next || shallow->prev) viol("C11", "a non-recursive duplicate has children or sibling links");
+    cJSON_Delete(shallow);
+    cJSON_Delete(src);
+    if (!vb_equal(jv_at(v, 1), copy, why, sizeof(why), 0)) viol("C11", "deleting the source changed the duplicate: %s", why);
+    cJSON_Delete(copy);
+    if (al_live != 0 || al_bad_free) viol("C11 C07", "%ld block(s) remain / %ld invalid releases after deleting source and duplicate", al_live, al_bad_free);
+}
+/* ["S", keys, cs]: sorting an object with these member keys; the resulting order is recorded for MC_UtilCheck (C19) */
+static void do_sort(const jv *v)
+{
+    const jv *keys = jv_at(v, 1); int cs = (int)jv_int(jv_at(v, 2)); size_t n = keys->n, i; cJSON *o = cJSON_CreateObject(), *c; char why[300] = ""; cJSON **nodes = (cJSON**)calloc(n + 1, sizeof(cJSON*));
+    for (i = 0; i < n; i++) { nodes[i] = cJSON_CreateNumber((double)(i + 1)); cJSON_AddItemToObject(o, cstr(keys->e[i]), nodes[i]); }
+    al_window(0);
+    if (cs) cJSONUtils_SortObjectCaseSensitive(o); else cJSONUtils_SortObject(o);
+    if (al_allocs) viol("C19", "sorting allocated memory");
+    if (!vb_wellformed(o, why, sizeof(why), 0)) viol("C19", "object after sorting %zu members: %s", n, why);
+    if ((size_t)cJSON_GetArraySize(o) != n) viol("C19", "object has %d members after sorting %zu", cJSON_GetArraySize(o), n);
+    if (recf) {
+        size_t k;
+        fprintf(recf, "{\"k\":\"sort\",\"cs\":%s,\"before\":[", cs ? "true" : "false");
+        for (k = 0; k < n; k++) { const jv *kb = keys->e[k]; size_t j; fprintf(recf, "%s[", k ? "," : ""); for (j = 0; j < kb->n; j++) fprintf(recf, "%s%ld", j ? "," : "", jv_int(kb->e[j])); fputc(']', recf); }
+        fputs("],\"after\":[", recf);
+        for (c = o->child, k = 0; c && k <= n; c = c->next, k++) { fprintf(recf, "%s%d", k ? "," : "", c->valueint); }
+        fputs("]}\n", recf); rec_n++;
+    }
+    for (i = 0; i < n; i++) {       /* values, keys and subtrees untouched */
+        const cJSON *m; int found = 0;
+        for (m = o->child; m; m = m->next) if (m == nodes[i]) { found = 1; break; }
+        if (!found || nodes[i]->valueint != (int)(i + 1) || strcmp(nodes[i]->string, cstr(keys->e[i]))) { viol("C19", "member %zu is missing or changed after sorting", i + 1); break; }
+    }
+    /* idempotent, and an ordinary container afterwards */
+    { uint64_t h1 = vb_hash(o, 0); if (cs) cJSONUtils_SortObjectCaseSensitive(o); else cJSONUtils_SortObject(o); if (vb_hash(o, 0) != h1) viol("C19", "sorting twice differs from sorting once (%zu members)", n); }
+    if (!still_editable(o, why, sizeof(why))) viol("C19", "object after sorting: %s", why);
+    free(nodes); cJSON_Delete(o);
+    if (al_live != 0 || al_bad_free) viol("C19 C07", "%ld block(s) remain after deleting the sorted object (members lost?)", al_live);
 }
 
 int vd_utils_main(int argc, char **argv);
@@ -210,13 +304,14 @@ int vd_utils_main(int argc, char **argv)
         if (len <= 0) continue;
         if (line[0] != '"') { if (VD.passthrough) fputs(line, VD.passthrough); continue; }
         copy = strdup(line); jv_reset(); v = jv_parse_line(line);
-        if (!v || v->t != JV_ARR || v->n < 4 || jv_at(v, 0)->t != JV_STR) { if (VD.passthrough) fputs(copy, VD.passthrough); free(copy); continue; }
+        if (!v || v->t != JV_ARR || v->n < 2 || jv_at(v, 0)->t != JV_STR) { if (VD.passthrough) fputs(copy, VD.passthrough); free(copy); continue; }
         VD.curline = copy; VD.cases++; kind = jv_at(v, 0)->s;
         al_case_begin();
         if (VD_TRY()) {
             al_in_call = 1;
             if (kind[0] == 'G') do_lookup(v); else if (kind[0] == 'F') do_find(v); else if (kind[0] == 'A') do_apply(v);
             else if (kind[0] == 'M') do_merge(v); else if (kind[0] == 'P') do_pair(v);
+            else if (kind[0] == 'D') do_dup(v); else if (kind[0] == 'S') do_sort(v);
             else { fprintf(stderr, "vdrv: unknown line kind %s\n", kind); return 2; }
             al_in_call = 0; VD_END();
         } else { al_in_call = 0; viol("*", "memory fault or hang in a utility call (line kind %s, address %p)", kind, (void*)vd_fault_addr); }
